@@ -1,9 +1,256 @@
 import OdcGeo.Model.C19
+/-!
+Driver for C19.
+
+  hist <fromText> <fromEpsg> <ops>
+      fromText  `[text;sys;srs;wkt;epsg,...]`   (texts are literals or stand-ins `#k`)
+      fromEpsg  `[n;sys;srs;wkt;epsg,...]`
+      ops       `[op;arg;...,...]`  see `parseOp?`
+      → observations joined by `,` then ` cache=<n> tcache=<n>`
+  pair <type> <record A> <record B>   → `eq hashEq tokEq`  (`-` where the type is unhashable)
+  clone <type> <record>               → `eq tokEq` of a value and its pickle round trip
+  fields <type>                       → the attribute names the model knows for the type
+-/
 namespace OdcGeo.C19.Drv
-open OdcGeo OdcGeo.IO
+open OdcGeo OdcGeo.IO OdcGeo.C19
+
+/-! ### part (a) -/
+
+def parsePInfo? (sys srs wkt epsg : String) : Option PInfo := do
+  let sys ← parseNat? sys
+  let epsg ← parseOpt? parseNat? epsg
+  pure ⟨sys, srs, wkt, epsg⟩
+
+def parseTextEntry? (s : String) : Option (String × PInfo) :=
+  match s.splitOn ";" with
+  | [t, sys, srs, wkt, epsg] => (parsePInfo? sys srs wkt epsg).map (fun p => (t, p))
+  | _ => none
+
+def parseEpsgEntry? (s : String) : Option (Nat × PInfo) :=
+  match s.splitOn ";" with
+  | [n, sys, srs, wkt, epsg] => do
+    let n ← parseNat? n
+    let p ← parsePInfo? sys srs wkt epsg
+    pure (n, p)
+  | _ => none
+
+def lookupStr {β : Type} (k : String) : List (String × β) → Option β
+  | [] => none
+  | (k', v) :: t => if k' = k then some v else lookupStr k t
+
+def mkWorld (ts : List (String × PInfo)) (es : List (Nat × PInfo)) : World :=
+  { fromText := fun t => lookupStr t ts, fromEpsg := fun n => assoc n es }
+
+def parseOp? (s : String) : Option Op :=
+  match s.splitOn ";" with
+  | ["pt", pv, t, pick] => do pure (.pnewText (← parseNat? pv) t (← parseNat? pick))
+  | ["pe", pv, n, pick] => do pure (.pnewEpsg (← parseNat? pv) (← parseNat? n) (← parseNat? pick))
+  | ["mi", v, n, pick] => do pure (.mk (← parseNat? v) (.int (← parseNat? n)) (← parseNat? pick))
+  | ["ms", v, t, pick] => do pure (.mk (← parseNat? v) (.str t) (← parseNat? pick))
+  | ["mp", v, pv, pick] => do pure (.mk (← parseNat? v) (.pyproj (← parseNat? pv)) (← parseNat? pick))
+  | ["md", v, d, pick] => do pure (.mk (← parseNat? v) (.dict d) (← parseNat? pick))
+  | ["mc", v, w] => do pure (.mk (← parseNat? v) (.crs (← parseNat? w)) 0)
+  | ["pk", v, w, pick] => do pure (.pickle (← parseNat? v) (← parseNat? w) (← parseNat? pick))
+  | ["dr", v] => do pure (.drop (← parseNat? v))
+  | ["pd", v] => do pure (.pdrop (← parseNat? v))
+  | ["gc"] => some .gc
+  | ["tr", a, b, xy] => do pure (.transformer (← parseNat? a) (← parseNat? b) (← parseBool? xy))
+  | ["ep", v] => do pure (.epsg (← parseNat? v))
+  | ["eq", a, b] => do pure (.eq (← parseNat? a) (← parseNat? b))
+  | ["ev", k] => do pure (.evict (← parseNat? k))
+  | _ => none
+
+def fmtOut : Out → String
+  | .unit => "-"
+  | .str s => s!"s:{s}"
+  | .err e => e.toStr
+  | .tr s d => s!"t:{s}>{d}"
+  | .epsg e => "e:" ++ fmtOpt toString e
+  | .bool b => fmtBool b
+
+/-! ### part (b) -/
+
+def parseNum? (s : String) : Option PyNum :=
+  if s = "z" then some ⟨.float, 0, true⟩
+  else if s = "b0" then some ⟨.bool, 0, false⟩
+  else if s = "b1" then some ⟨.bool, 1, false⟩
+  else if s.startsWith "i" then (parseRat? (s.drop 1).toString).map (fun r => ⟨.int, r, false⟩)
+  else if s.startsWith "f" then (parseRat? (s.drop 1).toString).map (fun r => ⟨.float, r, false⟩)
+  else none
+
+/-- `N` or `obj;sys;epsg;str` with epsg `U` (unset) / `N` (None) / number -/
+def parseCrs? (s : String) : Option (Option CrsObj) :=
+  if s = "N" then some none
+  else match s.splitOn ";" with
+    | [obj, sys, epsg, str] => do
+      let obj ← parseNat? obj
+      let sys ← parseNat? sys
+      let e ← if epsg = "U" then some (some 0) else parseOpt? parseNat? epsg
+      pure (some ⟨obj, ⟨sys, "", "", none⟩, str, e⟩)
+    | _ => none
+
+def parseXYCls? : String → Option XYCls
+  | "XY" => some .xy | "Resolution" => some .resolution
+  | "Index2d" => some .index2d | "Shape2d" => some .shape2d | _ => none
+
+def b3 (e : Bool) (h : Option Bool) (t : Bool) : String :=
+  s!"{fmtBool e} {fmtOpt fmtBool h} {fmtBool t}"
+
+def fmtOptB (h : Option Bool) : String := match h with | none => "-" | some b => fmtBool b
+
+def out3 (e : Bool) (h : Option Bool) (t : Bool) : String :=
+  s!"{fmtBool e} {fmtOptB h} {fmtBool t}"
+
+def parseXY? : List String → Option XYv
+  | [c, x, y] => do pure ⟨← parseXYCls? c, ← parseNum? x, ← parseNum? y⟩
+  | _ => none
+
+def parseBBox? : List String → Option BBox
+  | [c, l, b, r, t] => do pure ⟨← parseCrs? c, ← parseNum? l, ← parseNum? b, ← parseNum? r, ← parseNum? t⟩
+  | _ => none
+
+def parseGBox? : List String → Option GBox
+  | [c, ny, nx, aff] => do
+    pure ⟨← parseCrs? c, ← parseInt? ny, ← parseInt? nx, ← parseList? parseNum? aff⟩
+  | _ => none
+
+def parseGCP? : List String → Option GCPBox
+  | [ident, c, wld, pix, ny, nx, aff] => do
+    let m : GCPMap := ⟨← parseNat? ident, ← parseCrs? c, ← parseList? parseNum? wld, ← parseList? parseNum? pix⟩
+    pure ⟨← parseInt? ny, ← parseInt? nx, ← parseList? parseNum? aff, m⟩
+  | _ => none
+
+def parseTiles? : List String → Option (Res Tiles)
+  | [by_, bx, ty, tx] => do
+    pure (Tiles.mk' (← parseInt? by_) (← parseInt? bx) (← parseInt? ty) (← parseInt? tx))
+  | _ => none
+
+def parseVTiles? : List String → Option VTiles
+  | [y, x] => do pure (VTiles.mk' (← parseList? parseInt? y) (← parseList? parseInt? x))
+  | _ => none
+
+def parseBin? : List String → Option Bin1D
+  | [sz, o, d] => do pure ⟨← parseNum? sz, ← parseNum? o, ← parseInt? d⟩
+  | _ => none
+
+def parseGS? : List String → Option (Res GridSpec)
+  | [c, ty, tx, rx, ry, ox, oy, fx, fy] => do
+    let c ← parseCrs? c
+    let c ← c
+    pure (GridSpec.mk' c (← parseInt? ty) (← parseInt? tx) (← parseNum? rx) (← parseNum? ry)
+      (← parseNum? ox) (← parseNum? oy) (← parseBool? fx) (← parseBool? fy))
+  | _ => none
+
+def parseGeom? : List String → Option Geom
+  | [c, gt, layout, coords] => do
+    pure ⟨← parseCrs? c, gt, ← parseList? parseInt? layout, ← parseList? parseNum? coords⟩
+  | _ => none
+
+/-- `G <gbox 4 tokens>` or `P <gcp 7 tokens>`; returns the rest -/
+def parseAnyBox? : List String → Option (AnyBox × List String)
+  | "G" :: a :: b :: c :: d :: rest => (parseGBox? [a, b, c, d]).map (fun g => (.lin g, rest))
+  | "P" :: a :: b :: c :: d :: e :: f :: g :: rest =>
+    (parseGCP? [a, b, c, d, e, f, g]).map (fun x => (.gcp x, rest))
+  | _ => none
+
+def parseAnyTiles? : List String → Option (Res AnyTiles × List String)
+  | "T" :: a :: b :: c :: d :: rest =>
+    (parseTiles? [a, b, c, d]).map (fun t => (t.map AnyTiles.reg, rest))
+  | "V" :: a :: b :: rest => (parseVTiles? [a, b]).map (fun t => (.ok (.var t), rest))
+  | _ => none
+
+def parseGBT? (xs : List String) : Option (Res GBTiles × List String) := do
+  let (g, rest) ← parseAnyBox? xs
+  let (t, rest) ← parseAnyTiles? rest
+  pure (t.map (fun t => ⟨g, t⟩), rest)
+
+def splitHalf (xs : List String) : List String × List String := xs.splitAt (xs.length / 2)
+
+def pairRes {α : Type} (a b : Res α) (f : α → α → String) : String :=
+  match a, b with
+  | .ok a, .ok b => f a b
+  | .error e, _ => e.toStr
+  | _, .error e => e.toStr
+
+def hk {α : Type} [DecidableEq α] (a b : α) : Option Bool := some (decide (a = b))
+
+def runPair (ty : String) (xs : List String) : Option String :=
+  let (l, r) := splitHalf xs
+  match ty with
+  | "xy" => do
+    let a ← parseXY? l; let b ← parseXY? r
+    let h := match a.hashKey, b.hashKey with
+      | some x, some y => some (decide (x = y))
+      | _, _ => none
+    pure (out3 (a.eq b) h (a.token == b.token))
+  | "bbox" => do
+    let a ← parseBBox? l; let b ← parseBBox? r
+    pure (out3 (a.eq b) (hk a.hashKey b.hashKey) (a.token == b.token))
+  | "gbox" => do
+    let a ← parseGBox? l; let b ← parseGBox? r
+    pure (out3 (a.eq b) (hk a.hashKey b.hashKey) (a.token == b.token))
+  | "gcp" => do
+    let a ← parseGCP? l; let b ← parseGCP? r
+    pure (out3 (a.eq b) (hk a.hashKey b.hashKey) (a.token == b.token))
+  | "tiles" => do
+    let a ← parseTiles? l; let b ← parseTiles? r
+    pure (pairRes a b fun a b => out3 (a.eq b) none (a.token == b.token))
+  | "vst" => do
+    let a ← parseVTiles? l; let b ← parseVTiles? r
+    pure (out3 (a.eq b) none (a.token == b.token))
+  | "bin" => do
+    let a ← parseBin? l; let b ← parseBin? r
+    pure (out3 (a.eq b) none (a.token == b.token))
+  | "gs" => do
+    let a ← parseGS? l; let b ← parseGS? r
+    pure (pairRes a b fun a b => out3 (a.eq b) none (a.token == b.token))
+  | "geom" => do
+    let a ← parseGeom? l; let b ← parseGeom? r
+    pure (out3 (a.eq b) none (a.token == b.token))
+  | "gbt" => do
+    let (a, rest) ← parseGBT? xs
+    let (b, rest) ← parseGBT? rest
+    if rest ≠ [] then none
+    else pure (pairRes a b fun a b => out3 (a.eq b) none (a.token == b.token))
+  | _ => none
+
+/-- value vs its pickle round trip; the CRS of the clone is given by the caller (it is
+`CRS(_str)`, which part (a) computes), a GCP mapping gets the fresh identity `fresh`. -/
+def runClone (ty : String) (xs : List String) : Option String :=
+  match ty, xs with
+  | "gcp", fresh :: rest => do
+    let fresh ← parseNat? fresh
+    let a ← parseGCP? rest
+    let b := a.clone fresh a.mapping.crs
+    pure s!"{fmtBool (a.eq b)} {fmtBool (a.token == b.token)} {fmtBool (a.eq a.copy)}"
+  | _, _ => none
+
+def fieldsOf : String → Option String
+  | "XY" | "Resolution" | "Index2d" | "Shape2d" => some "_xy"
+  | "BoundingBox" => some "_box,_crs"
+  | "Geometry" => some "crs,geom"
+  | "GeoBox" => some "_affine,_crs,_extent,_lazy_ui,_shape"
+  | "GCPGeoBox" => some "_affine,_crs,_extent,_lazy_ui,_mapping,_shape"
+  | "GCPMapping" => some "_approx_affine,_crs,_p2w,_pix,_w2p,_wld"
+  | "Tiles" => some "_base_shape,_shape,_tile_shape"
+  | "VariableSizedTiles" => some "_offsets"
+  | "GeoboxTiles" => some "_gbox,_tiles"
+  | "Bin1D" => some "direction,origin,sz"
+  | "GridSpec" => some "_shape,_xbin,_ybin,crs,origin,resolution,tile_size"
+  | "CRS" => some "_crs,_epsg,_str"
+  | _ => none
 
 def run (args : List String) : Option String :=
   match args with
+  | ["hist", ts, es, ops] => do
+    let ts ← parseList? parseTextEntry? ts
+    let es ← parseList? parseEpsgEntry? es
+    let ops ← parseList? parseOp? ops
+    let (σ, outs) := C19.run (mkWorld ts es) ops
+    pure (",".intercalate (outs.map fmtOut) ++ s!" cache={σ.cache.length} tcache={σ.tcache.length}")
+  | "pair" :: ty :: rest => runPair ty rest
+  | "clone" :: ty :: rest => runClone ty rest
+  | ["fields", ty] => fieldsOf ty
   | _ => none
 
 end OdcGeo.C19.Drv
